@@ -16,7 +16,9 @@ META = {
              "step assignments, 2 sweeps, 2 calls), requires four named deviations to violate them, proves pi P = pi exactly on a "
              "rational 2 x NB joint (and its failure for stale conditioning), and validates recorded executions of HybridGibbs and "
              "legacy Gibbs for every TLC-emitted configuration (plus the repository's Gibbs tests in the thorough tier) against "
-             "the trace refinement of the same spec."),
+             "the trace refinement of the same spec. Also recorded and validated: a legacy run continued after a REFUSED call, and twins of a "
+             "sampler that was re-configured through its public attributes (constructed before / after it; they sweep as configured at "
+             "their own construction)."),
     "note": ("Values are abstracted to value ids (hash of the array bytes); cache coherence is a boolean computed by the recorder "
              "with rtol 1e-9 from fresh evaluations of the block sampler's own target. Distribution-level invariance is decided "
              "as structural conformance + the finite rational theorem, not by ergodic averages."),
@@ -327,12 +329,45 @@ def run(ctx):
             import cuqi
             lg2 = cuqi.sampler.Gibbs(zoo.hier_joint(), {("d", "s"): cuqi.sampler.Conjugate, "x": cuqi.sampler.LinearRTO})
             lg2.sample(3, 1)
+        # a REFUSED call (a second warm-up is refused by the legacy sampler) leaves nothing behind: the next call continues from
+        # the last stored sweep, and what is returned is the chain of the sweeps that were made
+        with zoo.quiet():
+            np.random.seed(81 + ctx.seed)
+            lg3 = zoo.legacy_gibbs_factory()()
+            lg3.sample(2, 1)
+            try:
+                lg3.sample(1, 1)
+                ctx.observations["legacy_second_warmup"] = "accepted"
+            except Exception as ex:
+                ctx.observations["legacy_second_warmup"] = "refused: " + str(ex)[:60]
+            r3 = lg3.sample(2)
         for name, fac in zoo.hybrid_gibbs_factories().items():
             with zoo.quiet():
                 np.random.seed(78 + ctx.seed)
                 g = fac()
                 g.warmup(1).sample(2)
                 runs.append(({"label": name}, (g, g.get_samples(), None)))
+        # independently constructed samplers share nothing: one is re-configured through its public attributes (never run),
+        # its twins - constructed before and after that - must sweep as configured at THEIR construction (documented default:
+        # one step per block); the recorder reads the configuration from the constructor arguments, not from the object
+        for name, fac in zoo.hybrid_gibbs_factories().items():
+            with zoo.quiet():
+                np.random.seed(83 + ctx.seed)
+                before, other = fac(), fac()
+                for b in list(other.par_names):
+                    other.num_sampling_steps[b] = 3
+                    smp = other.samplers[b]
+                    for opt in ("scale", "max_depth", "maxit"):
+                        if isinstance(getattr(smp, opt, None), (int, float)) and not isinstance(getattr(smp, opt), bool):
+                            try:
+                                setattr(smp, opt, type(getattr(smp, opt))(getattr(smp, opt) * 2))
+                            except Exception:
+                                pass
+                after = fac()
+                for tag, g in (("before", before), ("after", after)):
+                    g.warmup(1).sample(2)
+                    runs.append(({"label": name + "/twin_" + tag}, (g, g.get_samples(), None)))
+                    ctx.facets["twin_of_reconfigured/" + tag] = ctx.facets.get("twin_of_reconfigured/" + tag, 0) + 1
     finally:
         rec.uninstall()
     traces = rec.trace_list()
@@ -354,6 +389,14 @@ def run(ctx):
         if A.shape[1] != len(exp) or any(not np.allclose(A[:, i], e, rtol=1e-12, atol=0) for i, e in enumerate(exp)):
             ctx.mismatch("stored/legacy.Gibbs/value", {"kind": "stored", "label": "legacy"},
                          "legacy Gibbs: returned samples are not the post-sweep values of its sampling sweeps", exp, A)
+    copies = rec.copies.get(rec.key(lg3), [])
+    for n in lg3.par_names:
+        A = np.asarray(r3[n].samples, dtype=float)
+        A = A.reshape(1, -1) if A.ndim == 1 else A
+        exp = [c[n] for c in copies[1:]]
+        if A.shape[1] != len(exp) or any(not np.allclose(A[:, i], e, rtol=1e-12, atol=0) for i, e in enumerate(exp)):
+            ctx.mismatch("stored/legacy.Gibbs/after_refused_call", {"kind": "stored", "label": "legacy-refused"},
+                         "legacy Gibbs: after a refused call the returned samples are not the post-sweep values of the sampling sweeps made", exp, A)
     # 3. thorough: the repository's own Gibbs tests under the recorder
     if ctx.tier == "thorough":
         rt = record_repo_tests()
